@@ -419,7 +419,7 @@ fcppt::container::raw_vector::object<T, A>::erase(
     this->impl_.last_ -= _right - _left;
   }
 
-  return _right;
+  return _left;
 }
 
 template <typename T, typename A>
